@@ -148,12 +148,48 @@ def has_quant(f):
 
 
 def flatten_and(g):
+    """Split a goal into independently provable pieces (all splits are equivalences):
+    A ∧ B;  ∀x.(G ⇒ A ∧ B);  ∀x.(G ⇒ ite(c, A, B))."""
     if z3.is_and(g):
         out = []
         for ch in g.children():
             out.extend(flatten_and(ch))
         return out
+    if z3.is_quantifier(g) and g.is_forall() and g.num_patterns() >= 0:
+        n = g.num_vars()
+        body = g.body()
+        pieces = split_body(body)
+        if len(pieces) > 1 and len(pieces) <= 24:
+            names = [g.var_name(i) for i in range(n)]
+            sorts = [g.var_sort(i) for i in range(n)]
+            consts = [z3.Const(f"{names[i]}!s", sorts[i]) for i in range(n)]
+            out = []
+            for pc in pieces:
+                inst = z3.substitute_vars(pc, *reversed(consts))
+                out.append(z3.ForAll(consts, inst))
+            return out
     return [g]
+
+
+def split_body(b, guard=None):
+    """body -> list of bodies whose conjunction is equivalent."""
+    def mk(gd, x):
+        return x if gd is None else z3.Implies(gd, x)
+
+    def conj2(a, c):
+        return c if a is None else z3.And(a, c)
+    if z3.is_implies(b):
+        g2, rhs = b.children()
+        return split_body(rhs, conj2(guard, g2))
+    if z3.is_and(b):
+        out = []
+        for ch in b.children():
+            out.extend(split_body(ch, guard))
+        return out
+    if z3.is_app(b) and b.decl().kind() == z3.Z3_OP_ITE and b.sort() == z3.BoolSort():
+        c, x, y = b.children()
+        return split_body(x, conj2(guard, c)) + split_body(y, conj2(guard, z3.Not(c)))
+    return [mk(guard, b)]
 
 
 class Executor:
